@@ -28,7 +28,7 @@ LEVEL_NOTE = ("proof (partial): the keplerian<->cartesian round trip itself and 
               "overflow, mean-circular form wraps a hyperbolic M); Lean kernel + propext/Classical.choice/Quot.sound; py2lean translator trusted")
 TECHNIQUE = "Lean 4 proof over edge formulas translated from the Python AST (py2lean) on every run; differential correspondence per edge; API oracle"
 TRUSTED = [
-    "harness/py2lean.py translate_function/translate_expr: Python AST of the 17 `_a_to_b` methods, M2E pieces and 13 Infos properties -> Generated/Forms{F,R}.lean on every run",
+    "harness/py2lean.py translate_fn/translate_expr: Python AST of the 17 `_a_to_b` methods, M2E pieces and 13 Infos properties -> Generated/Forms{F,R}.lean on every run",
     "harness/props/C01.py m2e_pieces: checks that the M2E loop and the mean->eccentric edge still have exactly the modelled shape (AST equality), else the run is reported broken",
     "lean/templates/Forms.tpl: hand-written fuel loop, 6-list plumbing, name dispatch (tied by the correspondence run)",
     "atan2 y x := Complex.arg (x + iy), Python % := x - m floor(x/m), np.linalg.norm := sqrt of the sum of squares (NumReal.lean / py2lean)",
@@ -521,7 +521,7 @@ def extract(ctx):
                 edges.append((ln, a, b, False))
                 continue
             parts.append(f"/-- `Form.{f.name}` (forms.py line {f.lineno}) -/\n" +
-                         py2lean.translate_function(FORMS_PY, "Form." + f.name, ln, vec_params={"coord": CARGS}, consts=MU_CONSTS, extra_args=["mu"], tree=tree, ret_type="List R"))
+                         py2lean.translate_fn(FORMS_PY, "Form." + f.name, ln, vec_params={"coord": CARGS}, consts=MU_CONSTS, extra_args=["mu"], tree=tree, ret_type="List R"))
             edges.append((ln, a, b, True))
     m = m2e_pieces(tree)
     parts.append(f"/-- `tol` of `Form.M2E` -/\ndef m2eTol : R := {m['tol']}\n")
